@@ -240,6 +240,14 @@ def feed(m, rec):
         m(x, y)
     else:
         m(x, y, rec[4])
+    # the caller goes on using its own buffers (the usual 'x[i] += step' loop): what was recorded
+    # is what was passed at the time of the call
+    for buf in (x, y):
+        if isinstance(buf, list) or (isinstance(buf, np.ndarray) and buf.ndim):
+            for i in range(len(buf)):
+                buf[i] = 12345.0 + i
+        elif isinstance(buf, np.ndarray):
+            buf[()] = 12345.0
 
 
 def special_kinds(rec):
